@@ -349,7 +349,40 @@ def c14_8(ctx):
     return forward_obligation(ctx, ["hd"], "a key generated with a passphrase is the empty-passphrase key: it cannot be restored from mnemonic + passphrase")
 
 
+def c14_9(ctx):
+    """secure_mnemonic returns a mnemonic for every non-negative extra_entropy: entropy wider than num_bits is masked down *whenever*
+    it is wider (bit length num_bits+1 and num_bits+2 included), otherwise the fixed-width conversion overflows.  Cell evaluation
+    per num_bits over the bit lengths the code can distinguish; clock and RNG are stand-ins returning 0, the word codec is a stand-in
+    that round-trips"""
+    from sa.cells import Evaluator, Obj, Raised, Undecided
+    spec = "mnemonic:secure_mnemonic"
+    mod, fn = rl.get(ctx, spec)
+
+    def opaque(name, args, kw):
+        if name == "bytes_to_mnemonic":
+            return ("mnemonic", args[0])
+        if name == "mnemonic_to_bytes":
+            return args[0][1] if isinstance(args[0], tuple) else None
+        return NotImplemented
+    cells = 0
+    for nb in (128, 160, 192, 224, 256):
+        for extra in (0, 1, (1 << nb) - 1, 1 << nb, (1 << (nb + 1)) + 5, 1 << (nb + 2), (1 << (nb + 3)) - 1, 1 << 512):
+            cells += 1
+            try:
+                r = Evaluator(ctx.repo, opaque=opaque, externals={"time": lambda: 0.0, "randbits": lambda n: 0}).call(spec, [], kwargs={"num_bits": nb, "extra_entropy": extra})
+            except Undecided as u:
+                return [ctx.err(spec, "not evaluable for num_bits=%d, extra_entropy of %d bits: %s" % (nb, extra.bit_length(), u), fn, mod)]
+            except Raised as x:
+                return [ctx.bad(spec, "num_bits=%d with an extra_entropy of %d bits raises %s instead of returning a mnemonic: entropy %d bit(s) wider than num_bits is not "
+                                      "masked down before the %d-byte conversion" % (nb, extra.bit_length(), x.name, extra.bit_length() - nb, nb // 8), fn, mod, key="entropy-mask")]
+            if not (isinstance(r, tuple) and r and r[0] == "mnemonic" and isinstance(r[1], bytes) and len(r[1]) == nb // 8):
+                return [ctx.err(spec, "unexpected result %r" % (r,), fn, mod)]
+    ctx.count("cells", cells)
+    return [ctx.ok(spec, "a mnemonic of num_bits is produced for every extra_entropy bit length evaluated (%d cells)" % cells, fn, mod, key="entropy-mask")]
+
+
 OBLIGATIONS = [
+    ("C14.9", "CELLS entropy mask", c14_9),
     ("C14.8", "CTOR-FORWARD", c14_8),
     ("C14.1", "GUARD", c14_1),
     ("C14.2", "TABLE derived", c14_2),
